@@ -79,7 +79,7 @@ def check_alias(rep, algopy, rng, tier):
     n = 150 if tier == 'quick' else 2500
     for _ in range(n):
         op = rng.choice(['add', 'sub', 'mul', 'div'])
-        form = rng.choice(['x op x', 'x op= x', 'x op= view(x)', 'f(x,x)'])
+        form = rng.choice(['x op x', 'x op= x', 'x op= view(x)', 'f(x,x)', 'x op= x.data[d,p]'])
         D = rng.randint(1, 5); P = rng.randint(1, 2)
         shp = rng.choice([(), (3,), (2, 2)])
         if form == 'x op= view(x)' and shp == ():
@@ -103,6 +103,13 @@ def check_alias(rep, algopy, rng, tier):
                 y = UTPM(data.copy())
                 w = UTPM(data.copy())
                 want = iop(op, y, w[::-1] if len(shp) == 1 else w.T).data
+            elif form == 'x op= x.data[d,p]':
+                # the right operand is a PLAIN-ARRAY view of one coefficient block of the left operand (a constant from the point of view
+                # of the arithmetic, but sharing memory with x): every direction, also one that is not the last
+                d_, p_ = rng.randrange(D), rng.randrange(P)
+                rep.count('alias:coefficient view', 'd=%d%s' % (min(d_, 1), ', not the last direction' if p_ < P - 1 else ''))
+                got = iop(op, x, x.data[d_, p_]).data
+                want = iop(op, UTPM(data.copy()), data[d_, p_].copy()).data
             else:
                 f = rng.choice(['minimum', 'maximum'])
                 got = getattr(algopy, f)(x, x).data
@@ -324,7 +331,7 @@ def main(tier, seed):
     algopy = lib.import_algopy()
     rep = Report(PID, tier, seed)
     rep.rule = ('(a) every registered operation: byte-wise snapshot (bytes, dtype, shape, strides) of each argument before/after the call; '
-                '(b) x op x, x op= x, x op= view(x), f(x,x) against the same expression on independent copies, exact on dyadic inputs; '
+                '(b) x op x, x op= x, x op= view(x), x op= (plain-array view of a coefficient block of x), f(x,x) against the same expression on independent copies, exact on dyadic inputs; '
                 '(c) _mul with out= aliasing x / y / both and __imul__ against the Coq store model, exact; (d) tracer programs: input and seed '
                 'objects before/after recording, pushforward and two pullbacks; non-trivial = D>=2; distinct by full case content')
     rep.assumptions = ['whether a NumPy call mutates a buffer is a runtime fact: decided by snapshots, not by a theorem',
